@@ -399,6 +399,25 @@ def check_property(prop, tier, seed, replay=None):
     os.makedirs(os.path.join(OUT, 'replays'), exist_ok=True)
     try:
         return _check(prop, mod, tier, seed, replay, rundir, t0)
+    except Exception as e:  # noqa
+        # the machinery itself could not complete (typically: the library under test cannot even be
+        # imported any more, so the IMPL harness dies): the property is not shown to hold on this tree
+        import traceback
+        tb = traceback.format_exc()
+        n = len(glob.glob(os.path.join(OUT, 'replays', '%s-*.json' % prop)))
+        rpath = os.path.join(OUT, 'replays', '%s-%d-%d.json' % (prop, seed, n))
+        json.dump({'property': prop, 'tier': tier, 'seed': seed, 'kind': 'no-failing-input-found', 'case': None,
+                   'broken': ['the check could not run to completion: %s: %s' % (type(e).__name__, str(e)[-1500:])],
+                   'traceback': tb[-3000:], 'how_to_rerun': './check %s --tier %s' % (prop, tier)}, open(rpath, 'w'), indent=1)
+        ev = {'property_id': prop, 'tier': tier, 'seed': seed, 'level': 'proof',
+              'coverage': {'obligations': 0, 'discharged': 0, 'checker_cmd': 'not reached', 'trusted_base': [],
+                           'evaluations': 0, 'distinct_nontrivial': 0, 'rule': 'the check aborted', 'samples': [],
+                           'broken': ['check aborted: %s' % type(e).__name__]},
+              'wall_s': round(time.time() - t0, 2), 'violations': 1}
+        json.dump(ev, open(os.path.join(OUT, 'evidence', prop + '.json'), 'w'), indent=1)
+        print('VIOLATION property=%s replay=%s no-failing-input-found' % (prop, rpath))
+        print('%s tier=%s seed=%d: check aborted (%s)' % (prop, tier, seed, type(e).__name__))
+        return 1
     finally:
         shutil.rmtree(rundir, ignore_errors=True)
 
